@@ -176,6 +176,12 @@ func delims(in string) []string {
 		if d != "" {
 			ds = append(ds, d)
 		}
+		// the argument of a file directive is printable ASCII by the directive grammar: a value such as "x§" sets the delimiter "x"
+		if i := strings.IndexFunc(m[1], func(r rune) bool { return r < ' ' || r > '~' }); i > 0 {
+			if p := strings.TrimSpace(m[1][:i]); p != "" {
+				ds = append(ds, strings.NewReplacer(`\n`, "\n", `\r`, "\r", `\t`, "\t").Replace(p))
+			}
+		}
 	}
 	return ds
 }
@@ -382,6 +388,20 @@ func traceMode(out, tier string, seed int64) {
 	}
 	for i := 0; i < ng; i++ {
 		emit("grammar", gen(rng))
+	}
+	// (2b) directed: every delimiter of the list (several start with a multi-byte rune) set by a DELIMITER command or by the file directive,
+	// followed by two statements that end with it - with and without a line break after the delimiter, with the delimiter inside a literal
+	for _, d := range []string{"//", "$$", ";;", "§", "§§", "—", "ü;", "§x", "x§"} {
+		for _, s1 := range []string{"SELECT 1", "x", "INSERT INTO t VALUES ('a" + d + "b')"} {
+			for _, s2 := range []string{"SELECT 2", "y", "UPDATE t SET v = 'ü'"} {
+				for _, nl := range []string{"\n", "", " "} {
+					emit("directed", "DELIMITER "+d+"\n"+s1+d+nl+s2+d+nl)
+					emit("directed", "DELIMITER "+d+"\n"+s1+d+nl+s2)
+					emit("directed", "-- atlas:delimiter "+d+"\n"+s1+d+nl+s2+d+nl)
+					emit("directed", "-- atlas:delimiter "+d+"\n\n"+s1+d+nl+s2+d)
+				}
+			}
+		}
 	}
 	// (3) random bytes
 	nr := 2000
